@@ -1002,6 +1002,8 @@ def decode_day_of_week(data: int) -> str:
     if data == 0:
         return ""
     bits = bin(data)[2:]
+    if len(bits) > len(DAY_NAMES):
+        raise ValueError(f"day of week bits {data} out of range.")
     daynames = list(DAY_NAMES)
     days = ""
     for each in bits[::-1]:
@@ -1017,6 +1019,8 @@ def decode_months(data: int) -> str | None:
     if data <= 0 or data == 0x0fff:
         return None
     bits = bin(data)[2:]
+    if len(bits) > len(MONTH_NAMES):
+        raise ValueError(f"month bits {data} out of range.")
     monthnames = list(MONTH_NAMES)
     months = ""
     for each in bits[::-1]:
